@@ -292,7 +292,7 @@ Proof.
   assert (ap0 = ap) by (destruct Hap0 as [Hx _]; congruence). subst ap0.
   pose proof Hok as (Hidb & _ & _ & _ & _ & _ & _ & _ & (p0 & Hp0 & HQ & HU) & Hfee).
   assert (Hpp : p0 = bp) by (destruct Hp0 as [Hx _]; congruence). subst p0.
-  destruct (Hclean b bp xp Hlb Hbp Hxp) as (Hex1 & Hex2 & Hmono).
+  destruct (Hclean b bp xp Hlb Hbp Hxp) as (Hex1 & Hex2). pose proof (bid_ok_fee_mono _ _ _ Hok) as Hmono.
   assert (Pbp : positive_dec bp) by (destruct Hp0 as (_ & ? & ? & _); split; assumption).
   assert (Pap : positive_dec ap) by (destruct Hap0 as (_ & ? & ? & _); split; assumption).
   apply remaining_base_ok in Hrb as [-> Hab]. apply accumulate_eq in Hfill.
